@@ -22,6 +22,7 @@ TRUSTED = [
 
 def p_C04(res, facts, tier):
     from .rules import midi
+    midi.check_frame(res, facts)
     n = midi.check_edges_and_held(res, facts, 'C04')
     res.floor('held_partitions', n, 60)
     midi.check_setters(res, facts)
@@ -33,6 +34,9 @@ def p_C04(res, facts, tier):
 
 def p_C05(res, facts, tier):
     from .rules import midi
+    # "... and never otherwise": messages that are not note / All-Notes-Off messages of the listened channel move neither the
+    # gate nor the latches (shared with C06)
+    midi.check_frame(res, facts)
     n = midi.check_edges_and_held(res, facts, 'C05')
     res.floor('edge_partitions', n, 60)
     midi.check_edge_getters(res, facts)
@@ -116,6 +120,7 @@ def p_C11(res, facts, tier):
 
 def p_C12(res, facts, tier):
     from .rules import dds
+    dds.check_pa_methods(res, facts, dds.LFO, 'C12')
     dds.check_bits(res, facts, [dds.LFO])
     dds.check_waves(res, facts, 'C12')
     dds.table_checks(res, facts, {'sine'})
